@@ -20,31 +20,37 @@ Proof.
   specialize (H c). rewrite In_seqZ in H. specialize (H ltac:(lia)). lia.
 Qed.
 
-(** ** The specification of the cue list: one cue per UTC second that intersects [u, u+d) *)
+(** ** The specification of the cue list: one cue per UTC second that intersects [u, u+d) and whose
+    cue (lasting c from the start of the second) has not ended before the segment starts *)
 Definition cue_of (s d u c q : Z) : cue :=
   {| c_start := Z.max (q * 1000) u + (s - u); c_end := Z.min (q * 1000 + c) (u + d) + (s - u); c_utc := q |}.
 
 Definition first_sec (u : Z) : Z := u / 1000.
 Definition last_sec (u d : Z) : Z := (u + d - 1) / 1000.
+(** the cue of second q is still showing at u *)
+Definition showing (u c q : Z) : bool := u <? q * 1000 + c.
 
 Definition cues_spec (s d u c : Z) : list cue :=
-  map (cue_of s d u c) (seqZ (first_sec u) (Z.to_nat (last_sec u d - first_sec u + 1))).
+  map (cue_of s d u c)
+      (filter (showing u c) (seqZ (first_sec u) (Z.to_nat (last_sec u d - first_sec u + 1)))).
 
-Lemma cue_at_inside s d u c q : q * 1000 < u + d ->
-  cue_at s d u c q = Some (cue_of s d u c q).
+Lemma cue_at_inside s d u c q : 1 <= c -> 0 < d -> q * 1000 < u + d ->
+  cue_at s d u c q = Some (if showing u c q then Some (cue_of s d u c q) else None).
 Proof.
-  intros Hq. unfold cue_at, cue_of.
+  intros Hc Hd Hq. unfold cue_at, cue_of, showing.
   destruct (q * 1000 =? u + d) eqn:E; [lia|].
-  f_equal. f_equal.
-  - destruct (q * 1000 <? u) eqn:E1; lia.
-  - destruct (u + d <? q * 1000 + c) eqn:E2; lia.
+  destruct (q * 1000 <? u) eqn:E1; destruct (u + d <? q * 1000 + c) eqn:E2;
+    destruct (u <? q * 1000 + c) eqn:E3;
+    match goal with |- context [?a <=? ?b] => destruct (a <=? b) eqn:E4 end; try lia;
+    try reflexivity; do 3 f_equal; lia.
 Qed.
 
-Lemma cue_loop_spec s d u c hi : 0 < d -> 0 <= u -> hi = (u + d) / 1000 ->
+Lemma cue_loop_spec s d u c hi : 1 <= c -> 0 < d -> 0 <= u -> hi = (u + d) / 1000 ->
   forall fuel q, last_sec u d + 1 - q <= Z.of_nat fuel -> q <= last_sec u d + 1 ->
-  cue_loop fuel s d u c 1 hi q = map (cue_of s d u c) (seqZ q (Z.to_nat (last_sec u d + 1 - q))).
+  cue_loop fuel s d u c 1 hi q =
+  map (cue_of s d u c) (filter (showing u c) (seqZ q (Z.to_nat (last_sec u d + 1 - q)))).
 Proof.
-  intros Hd Hu Hhi. unfold last_sec.
+  intros Hc Hd Hu Hhi. unfold last_sec.
   assert (Hl : ((u + d - 1) / 1000) * 1000 <= u + d - 1 < ((u + d - 1) / 1000) * 1000 + 1000).
   { pose proof (Z.div_mod (u + d - 1) 1000 ltac:(lia)). pose proof (Z.mod_pos_bound (u + d - 1) 1000 ltac:(lia)). lia. }
   assert (Hh : hi * 1000 <= u + d < hi * 1000 + 1000).
@@ -60,44 +66,39 @@ Proof.
         assert (q <= L) by lia.
         rewrite cue_at_inside by assumption.
         replace (Z.to_nat (L + 1 - q)) with (S (Z.to_nat (L + 1 - (q + 1)))) by lia.
-        cbn [seqZ map]. f_equal. apply IH; lia.
+        cbn [seqZ filter]. destruct (showing u c q); cbn [map]; [f_equal|]; apply IH; lia.
     + assert (q = L + 1) by lia. subst q. replace (L + 1 - (L + 1)) with 0 by lia. reflexivity.
 Qed.
 
 (** C12_cues, first half: for cue durations 1..1000 ms, a non-empty segment and a non-negative UTC
-    start, calcCueItvls returns exactly the specified list: one cue per UTC second that intersects
-    [u, u+d), in order *)
+    start, calcCueItvls returns exactly the specified list, in order *)
 Theorem calcCueItvls_spec s d u c : 1 <= c <= 1000 -> 0 < d -> 0 <= u ->
   calcCueItvls s d u c = Ok (cues_spec s d u c).
 Proof.
   intros Hc Hd Hu. unfold calcCueItvls. rewrite (cueFullS_one c Hc).
   change (1 * 1000 =? 0) with false. change (1 <? 0) with false. cbv iota.
-  change (1 * 1000) with 1000.
+  change (1 * 1000) with 1000. rewrite Z.mul_1_r.
   rewrite !Z.quot_div_nonneg by lia.
   f_equal. unfold cues_spec, first_sec.
   assert (Hlo : u / 1000 <= last_sec u d).
   { unfold last_sec. apply Z.div_le_mono; lia. }
   assert (Hhi : last_sec u d <= (u + d) / 1000).
   { unfold last_sec. apply Z.div_le_mono; lia. }
-  rewrite (cue_loop_spec s d u c ((u + d) / 1000) Hd Hu eq_refl) by lia.
-  do 2 f_equal. lia.
+  rewrite (cue_loop_spec s d u c ((u + d) / 1000) ltac:(lia) Hd Hu eq_refl) by lia.
+  do 3 f_equal. lia.
 Qed.
 
-(** which seconds: exactly those whose interval [q*1000, (q+1)*1000) meets [u, u+d) *)
-Lemma cues_spec_seconds s d u c q : 0 < d -> 0 <= u ->
-  (In q (map c_utc (cues_spec s d u c)) <-> q * 1000 < u + d /\ u < (q + 1) * 1000).
+(** which seconds: exactly those whose interval meets [u, u+d) and whose cue is still showing at u *)
+Lemma cues_spec_seconds s d u c q : 1 <= c <= 1000 -> 0 < d -> 0 <= u ->
+  (In q (map c_utc (cues_spec s d u c)) <-> q * 1000 < u + d /\ u < q * 1000 + c).
 Proof.
-  intros Hd Hu. unfold cues_spec. rewrite map_map. cbn [c_utc cue_of]. rewrite map_id.
-  rewrite In_seqZ. unfold first_sec, last_sec.
+  intros Hc Hd Hu. unfold cues_spec. rewrite map_map. cbn [c_utc cue_of]. rewrite map_id.
+  rewrite filter_In, In_seqZ. unfold first_sec, last_sec, showing.
   pose proof (Z.div_mod u 1000 ltac:(lia)). pose proof (Z.mod_pos_bound u 1000 ltac:(lia)).
   pose proof (Z.div_mod (u + d - 1) 1000 ltac:(lia)). pose proof (Z.mod_pos_bound (u + d - 1) 1000 ltac:(lia)).
   assert (u / 1000 <= (u + d - 1) / 1000) by (apply Z.div_le_mono; lia).
   lia.
 Qed.
-
-Lemma cues_spec_utc s d u c :
-  map c_utc (cues_spec s d u c) = seqZ (first_sec u) (Z.to_nat (last_sec u d - first_sec u + 1)).
-Proof. unfold cues_spec. rewrite map_map. cbn [c_utc cue_of]. apply map_id. Qed.
 
 (** ordered, non-overlapping, inside the segment: as a chain predicate *)
 Fixpoint cues_chain (lo hi : Z) (cs : list cue) : Prop :=
@@ -120,38 +121,61 @@ Proof.
     apply IH; lia.
 Qed.
 
-(** C12_cues, second half: if the first second's cue has not already ended when the segment starts
-    ([u mod 1000 < c]) every cue has begin < end, consecutive cues do not overlap, and all lie
-    inside [s, s+d) *)
-Theorem cues_spec_chain s d u c : 1 <= c <= 1000 -> 0 < d -> 0 <= u -> u mod 1000 < c ->
+Lemma filter_showing_later u c n : 1 <= c -> 0 <= u -> forall q, first_sec u < q ->
+  filter (showing u c) (seqZ q n) = seqZ q n.
+Proof.
+  intros Hc Hu. unfold first_sec.
+  pose proof (Z.div_mod u 1000 ltac:(lia)) as D1. pose proof (Z.mod_pos_bound u 1000 ltac:(lia)) as B1.
+  induction n as [|n IH]; intros q Hq; cbn [seqZ filter]; [reflexivity|].
+  unfold showing at 1. destruct (u <? q * 1000 + c) eqn:E; [|lia]. f_equal. apply IH. lia.
+Qed.
+
+(** C12_cues, second half (unconditional since 6f3327b): every cue has begin < end, consecutive cues do
+    not overlap, and all lie inside [s, s+d) *)
+Theorem cues_spec_chain s d u c : 1 <= c <= 1000 -> 0 < d -> 0 <= u ->
   cues_chain s (s + d) (cues_spec s d u c).
 Proof.
-  intros Hc Hd Hu Hvis. unfold cues_spec.
+  intros Hc Hd Hu. unfold cues_spec.
   pose proof (Z.div_mod u 1000 ltac:(lia)) as D1. pose proof (Z.mod_pos_bound u 1000 ltac:(lia)) as B1.
   pose proof (Z.div_mod (u + d - 1) 1000 ltac:(lia)) as D2. pose proof (Z.mod_pos_bound (u + d - 1) 1000 ltac:(lia)) as B2.
   assert (Hle : first_sec u <= last_sec u d) by (unfold first_sec, last_sec; apply Z.div_le_mono; lia).
   replace (Z.to_nat (last_sec u d - first_sec u + 1)) with (S (Z.to_nat (last_sec u d - first_sec u))) by lia.
-  cbn [seqZ map cues_chain]. unfold first_sec, last_sec in *.
-  cbn [cue_of c_start c_end]. split; [lia|]. split; [lia|].
-  apply (chain_spec_from s d u c Hc Hd Hu); unfold first_sec, last_sec; lia.
+  cbn [seqZ filter]. rewrite (filter_showing_later u c _ ltac:(lia) Hu) by lia.
+  destruct (showing u c (first_sec u)) eqn:Es.
+  - cbn [map cues_chain]. unfold showing, first_sec, last_sec in *.
+    cbn [cue_of c_start c_end]. split; [lia|]. split; [lia|].
+    apply (chain_spec_from s d u c Hc Hd Hu); unfold first_sec, last_sec; lia.
+  - apply (chain_spec_from s d u c Hc Hd Hu); unfold first_sec, last_sec in *; lia.
 Qed.
 
-(** FINDING (late start): 29.97 fps asset, segment 475: u = 950950, d = 2002, default cue duration 900:
-    u mod 1000 = 950 >= 900, the first cue has end < begin *)
+(** when the first second's cue is still showing nothing is skipped: one cue per intersecting second *)
+Lemma cues_spec_all s d u c : 1 <= c -> 0 <= u -> u mod 1000 < c ->
+  cues_spec s d u c = map (cue_of s d u c) (seqZ (first_sec u) (Z.to_nat (last_sec u d - first_sec u + 1))).
+Proof.
+  intros Hc Hu Hv. unfold cues_spec. f_equal.
+  pose proof (Z.div_mod u 1000 ltac:(lia)) as D1.
+  destruct (Z.to_nat (last_sec u d - first_sec u + 1)) as [|n]; [reflexivity|].
+  cbn [seqZ filter]. rewrite (filter_showing_later u c n Hc Hu) by lia.
+  unfold showing, first_sec. destruct (u <? u / 1000 * 1000 + c) eqn:E; [reflexivity|lia].
+Qed.
+
+(** the former finding late-start (fixed by 6f3327b): 29.97 fps asset, segment 475: u = 950950,
+    d = 2002, default cue duration 900: u mod 1000 = 950 >= 900, the cue of second 950 is over and is
+    skipped (before: a cue (950950, 950900) with end before begin) *)
 Theorem late_start_witness :
   calcCueItvls 950950 2002 950950 900 =
-  Ok [ {| c_start := 950950; c_end := 950900; c_utc := 950 |};
-       {| c_start := 951000; c_end := 951900; c_utc := 951 |};
-       {| c_start := 952000; c_end := 952900; c_utc := 952 |} ]
-  /\ ~ cues_chain 950950 (950950 + 2002) (cues_spec 950950 2002 950950 900).
-Proof. split; [vm_compute; reflexivity|]. vm_compute. intros (_ & H & _). discriminate. Qed.
+  Ok [ {| c_start := 951000; c_end := 951900; c_utc := 951 |};
+       {| c_start := 952000; c_end := 952900; c_utc := 952 |} ].
+Proof. vm_compute. reflexivity. Qed.
 
-(** FINDING (long cue): cue duration 1001 ms, segment [90 s, 92 s): cueFullS = 2, the loop variable
-    counts units of 2 s but is used as a second: one cue for UTC second 45 with end < begin *)
+(** FINDING (long cue): cue duration 1500 ms, segment [90 s, 92 s): cueFullS = 2; by design one cue per
+    2 s, at even seconds: the UTC second 91 intersects the segment (its cue would still be showing) but
+    has no cue of its own, and the cue of second 90 lasts into it *)
 Theorem long_cue_witness :
-  cueFullS 1001 = 2 /\
-  calcCueItvls 90000 2000 90000 1001 = Ok [ {| c_start := 90000; c_end := 46001; c_utc := 45 |} ].
-Proof. split; vm_compute; reflexivity. Qed.
+  cueFullS 1500 = 2 /\
+  calcCueItvls 90000 2000 90000 1500 = Ok [ {| c_start := 90000; c_end := 91500; c_utc := 90 |} ] /\
+  (91 * 1000 < 90000 + 2000 /\ 90000 < 91 * 1000 + 1500).
+Proof. split; [vm_compute; reflexivity|]. split; [vm_compute; reflexivity|lia]. Qed.
 
 (** cue duration <= 0: calcCueItvls itself divides by zero for -999..0; the configuration refuses it (400) *)
 Theorem zero_cue_panics : forall s d u, calcCueItvls s d u 0 = Panic "app.calcCueItvls:integer divide by zero".
@@ -259,14 +283,6 @@ Proof.
   intros (H1 & H2 & H3). rewrite (IH _ H3). lia.
 Qed.
 
-(** with the late-start defect the first wvtt sample duration wraps in uint32 *)
-Theorem late_start_wvtt_witness :
-  exists x rest, wvtt_samples 950950 2002
-     [ {| c_start := 950950; c_end := 950900; c_utc := 950 |};
-       {| c_start := 951000; c_end := 951900; c_utc := 951 |};
-       {| c_start := 952000; c_end := 952900; c_utc := 952 |} ] = x :: rest /\ w_dur x = 4294967246.
-Proof. vm_compute. eexists. eexists. split; reflexivity. Qed.
-
 (** ** The whole segment *)
 
 Lemma i64_small x : 0 <= x < two63 -> i64 x = x.
@@ -287,13 +303,12 @@ Proof. intros H. pose proof (ttml_roundtrip ms H) as R. destruct (msToTTML ms) a
 (** C12_segment: sequence number, decode time and duration are those of the reference video segment
     converted to milliseconds by rep2SubsTime; the TTML cues read back from the printed times and the
     wvtt samples are the specified cue list for the UTC time T + startTime; the wvtt samples tile
-    [T, T+D). Domain: cue duration 1..1000, D a positive uint32, no int64 overflow, and the visible
-    hypothesis (T + startTimeS*1000) mod 1000 < cueDur. *)
+    [T, T+D). Domain: cue duration 1..1000, D a positive uint32, no int64 overflow. *)
 Theorem subs_segment_spec r startS c :
   let T := rep2SubsTime (r_time r) (r_ts r) in
   let D := rep2SubsTime (r_dur r) (r_ts r) in
   let U := T + startS * 1000 in
-  1 <= c <= 1000 -> 0 <= T -> 0 < D < two32 -> 0 <= startS -> U + D < two63 -> U mod 1000 < c ->
+  1 <= c <= 1000 -> 0 <= T -> 0 < D < two32 -> 0 <= startS -> U + D < two63 ->
   exists sg, subs_segment r startS c = Ok sg /\
     s_nr sg = r_nr r /\ s_time sg = T /\ s_dur sg = D /\
     s_cues sg = cues_spec T D U c /\
@@ -302,7 +317,7 @@ Theorem subs_segment_spec r startS c :
     tiles T (s_samples sg) (T + D) /\
     cue_samples (s_samples sg) = map sample_of_cue (cues_spec T D U c).
 Proof.
-  intros T D U Hc HT HD HS Hmax Hvis.
+  intros T D U Hc HT HD HS Hmax.
   assert (HU : 0 <= U) by (subst U; lia).
   unfold subs_segment. fold T. fold D.
   rewrite (u32_small D) by lia.
@@ -311,7 +326,7 @@ Proof.
   rewrite (u64_small' U) by (unfold two63, two64 in *; lia).
   rewrite (i64_small T), (i64_small U) by (unfold two63 in *; lia).
   rewrite (calcCueItvls_spec T D U c Hc ltac:(lia) HU). cbn [bind].
-  pose proof (cues_spec_chain T D U c Hc ltac:(lia) HU Hvis) as Hch.
+  pose proof (cues_spec_chain T D U c Hc ltac:(lia) HU) as Hch.
   replace (T + D) with (T + D) in Hch by reflexivity.
   destruct (wvtt_samples_tile T D (cues_spec T D U c) HT ltac:(lia) ltac:(unfold two63, two64 in *; lia) Hch) as (Ht & Hcs).
   eexists. split; [reflexivity|]. cbn [s_nr s_time s_dur s_cues s_samples].
